@@ -274,6 +274,7 @@ type xplorer struct {
 	Overflow bool
 	maxDepth int
 	fieldFn  map[FieldID][]ssa.Value
+	globals  map[*ssa.Global]bool
 	cur      *xState // state being stepped (for resolutions that need it)
 	impls    map[*types.Interface]*ssa.Function
 }
@@ -676,7 +677,7 @@ func (s *xState) load(f *xFrame, u *ssa.UnOp, depth int) xVal {
 		}
 		return xVal{K: xElem, Base: &base, Idx: &idx, V: u, F: f, Stale: base.Stale}
 	case *ssa.Global:
-		return xVal{K: xAtom, V: u, F: nil}
+		return xVal{K: xAtom, V: u, F: nil, NonNil: s.x.globalNonNil(a)}
 	}
 	addr := s.eval(f, u.X, depth+1)
 	if addr.K == xAddr {
@@ -912,6 +913,60 @@ func (x *xplorer) calleeOf(s *xState, f *xFrame, cc *ssa.CallCommon) (*ssa.Funct
 	}
 	cv := s.eval(f, cc.Value, 0)
 	return x.funcOf(cv)
+}
+
+// globalNonNil: a package-level error variable that is assigned exactly once,
+// in its package's initialiser, from errors.New / fmt.Errorf (a sentinel such
+// as ErrManagerAlreadyStarted or context.Canceled's like) is never nil.
+func (x *xplorer) globalNonNil(g *ssa.Global) bool {
+	if x.globals == nil {
+		x.globals = map[*ssa.Global]bool{}
+	}
+	if v, ok := x.globals[g]; ok {
+		return v
+	}
+	res := false
+	if g.Pkg != nil {
+		n, good := 0, true
+		for _, m := range g.Pkg.Members {
+			fn, ok := m.(*ssa.Function)
+			if !ok {
+				continue
+			}
+			var visit func(f *ssa.Function)
+			visit = func(f *ssa.Function) {
+				allInstrs(f, func(in ssa.Instruction) {
+					st, ok := in.(*ssa.Store)
+					if !ok || st.Addr != ssa.Value(g) {
+						return
+					}
+					n++
+					c, isCall := st.Val.(*ssa.Call)
+					if f.Name() != "init" || !isCall || !(callIs(c, "errors", "", "New") || callIs(c, "fmt", "", "Errorf")) {
+						good = false
+					}
+				})
+				for _, a := range f.AnonFuncs {
+					visit(a)
+				}
+			}
+			visit(fn)
+		}
+		// stores in methods of the analysed module (not package members)
+		for _, f := range x.p.Funcs {
+			if f.Signature.Recv() == nil {
+				continue
+			}
+			allInstrs(f, func(in ssa.Instruction) {
+				if st, ok := in.(*ssa.Store); ok && st.Addr == ssa.Value(g) {
+					good = false
+				}
+			})
+		}
+		res = n == 1 && good
+	}
+	x.globals[g] = res
+	return res
 }
 
 // soleImplementation: for a method call on an interface declared in the
